@@ -307,6 +307,7 @@ class CaseSpec:
                     found.append((c, fl, msg))
                     if len(found) >= 40:
                         break
+            found.sort(key=lambda x: len(x[0].steps))     # the smallest failing cases make the best replays
             reported = set()
             new_found = []
             for c, fl, msg in found:
